@@ -158,7 +158,7 @@ def coq_dir_targets(d):
 
 def theorems_in(relpath):
     txt = strip_comments(open(os.path.join(COQ, relpath)).read())
-    return re.findall(r"^\s*(?:Theorem|Corollary|Lemma)\s+([A-Za-z0-9_']+)", txt, re.M)
+    return re.findall(r"^\s*(?:Theorem|Corollary)\s+([A-Za-z0-9_']+)", txt, re.M)
 
 
 def parse_assumptions(log):
